@@ -44,7 +44,7 @@ func isCounterRef(info *types.Info, e ast.Expr, counter types.Object) bool {
 	if u, ok := e.(*ast.UnaryExpr); ok && u.Op == token.AND {
 		e = ast.Unparen(u.X)
 	}
-	return objOf(info, e) == counter
+	return objOfSel(info, e) == counter
 }
 
 func c05Set(p *Prog, r *Report) {
@@ -54,25 +54,58 @@ func c05Set(p *Prog, r *Report) {
 		return
 	}
 	info := fi.Pkg.TypesInfo
+	// Set may hand over to a helper of the package that holds the loop (global.raiseTo(s)): that helper is read
+	for depth := 0; depth < 3 && len(fi.Decl.Body.List) == 1; depth++ {
+		es, ok := fi.Decl.Body.List[0].(*ast.ExprStmt)
+		if !ok {
+			break
+		}
+		c, ok := es.X.(*ast.CallExpr)
+		if !ok {
+			break
+		}
+		h := p.staticCallee(fi.Pkg, c)
+		if h == nil || h.Pkg != fi.Pkg || h.Decl == nil || h.Decl.Body == nil || h.Decl.Type.Params.NumFields() != 1 || len(c.Args) != 1 {
+			break
+		}
+		fi = h
+	}
 	f := p.FlatOf(fi)
-	// the counter: the package-level variable Next() adds to
+	// the counter: the package-level variable (or the field of the package's counter object) that Next() adds to
+	isCounterObj := func(o types.Object) bool {
+		v, ok := o.(*types.Var)
+		if !ok {
+			return false
+		}
+		if !v.IsField() && v.Parent() != fi.Pkg.Types.Scope() {
+			return false
+		}
+		if b, ok := v.Type().Underlying().(*types.Basic); ok && b.Info()&types.IsInteger != 0 {
+			return true
+		}
+		return strings.HasPrefix(v.Type().String(), "sync/atomic.")
+	}
 	var counter types.Object
 	if nx := p.Func(kSeqNext); nx != nil {
-		ast.Inspect(nx.Decl.Body, func(x ast.Node) bool {
-			if c, ok := x.(*ast.CallExpr); ok && len(c.Args) >= 1 {
-				if u, ok := ast.Unparen(c.Args[0]).(*ast.UnaryExpr); ok && u.Op == token.AND {
-					if o := objOf(info, u.X); o != nil && o.Parent() == fi.Pkg.Types.Scope() {
-						counter = o
+		for _, body := range p.deepBodies(nx) {
+			ast.Inspect(body, func(x ast.Node) bool {
+				if c, ok := x.(*ast.CallExpr); ok {
+					if len(c.Args) >= 1 {
+						if u, ok := ast.Unparen(c.Args[0]).(*ast.UnaryExpr); ok && u.Op == token.AND {
+							if o := objOfSel(info, u.X); o != nil && isCounterObj(o) {
+								counter = o
+							}
+						}
+					}
+					if sel, ok := c.Fun.(*ast.SelectorExpr); ok && sel.Sel.Name == "Add" {
+						if o := objOfSel(info, sel.X); o != nil && isCounterObj(o) {
+							counter = o
+						}
 					}
 				}
-				if sel, ok := c.Fun.(*ast.SelectorExpr); ok {
-					if o := objOf(info, sel.X); o != nil && o.Parent() == fi.Pkg.Types.Scope() {
-						counter = o
-					}
-				}
-			}
-			return true
-		})
+				return true
+			})
+		}
 	}
 	if counter == nil {
 		r.Undecided("C05.a", kSeqSet, p.pos(fi.Decl), "counter variable not identified from sequence.Next")
@@ -94,7 +127,7 @@ func c05Set(p *Prog, r *Report) {
 		c, ok := ast.Unparen(as.Rhs[0]).(*ast.CallExpr)
 		if !ok {
 			// plain read of the counter (under a mutex)
-			if objOf(info, as.Rhs[0]) == counter {
+			if objOfSel(info, as.Rhs[0]) == counter {
 				loaded[objOf(info, as.Lhs[0])] = true
 			}
 			return true
@@ -103,7 +136,7 @@ func c05Set(p *Prog, r *Report) {
 		if strings.HasPrefix(exprPath(c.Fun), "atomic.Load") && len(c.Args) == 1 && isCounterRef(info, c.Args[0], counter) {
 			isLoad = true
 		}
-		if sel, ok := c.Fun.(*ast.SelectorExpr); ok && sel.Sel.Name == "Load" && objOf(info, sel.X) == counter {
+		if sel, ok := c.Fun.(*ast.SelectorExpr); ok && sel.Sel.Name == "Load" && objOfSel(info, sel.X) == counter {
 			isLoad = true
 		}
 		if isLoad {
@@ -164,7 +197,7 @@ func c05Set(p *Prog, r *Report) {
 		if strings.HasPrefix(name, "atomic.CompareAndSwap") && len(c.Args) == 3 && isCounterRef(info, c.Args[0], counter) {
 			return usesS(c.Args[2])
 		}
-		if sel, ok := c.Fun.(*ast.SelectorExpr); ok && sel.Sel.Name == "CompareAndSwap" && objOf(info, sel.X) == counter && len(c.Args) == 2 {
+		if sel, ok := c.Fun.(*ast.SelectorExpr); ok && sel.Sel.Name == "CompareAndSwap" && objOfSel(info, sel.X) == counter && len(c.Args) == 2 {
 			return usesS(c.Args[1])
 		}
 		return false
@@ -264,11 +297,11 @@ func c05Set(p *Prog, r *Report) {
 			if (strings.HasPrefix(name, "atomic.Store") || strings.HasPrefix(name, "atomic.Swap")) && len(c.Args) == 2 && isCounterRef(info, c.Args[0], counter) && usesS(c.Args[1]) {
 				isStore = true
 			}
-			if sel, ok := c.Fun.(*ast.SelectorExpr); ok && (sel.Sel.Name == "Store" || sel.Sel.Name == "Swap") && objOf(info, sel.X) == counter {
+			if sel, ok := c.Fun.(*ast.SelectorExpr); ok && (sel.Sel.Name == "Store" || sel.Sel.Name == "Swap") && objOfSel(info, sel.X) == counter {
 				isStore = true
 			}
 		}
-		if as, ok := n.Ast.(*ast.AssignStmt); ok && len(as.Lhs) == 1 && objOf(info, as.Lhs[0]) == counter && usesS(as.Rhs[0]) {
+		if as, ok := n.Ast.(*ast.AssignStmt); ok && len(as.Lhs) == 1 && objOfSel(info, as.Lhs[0]) == counter && usesS(as.Rhs[0]) {
 			isStore = true
 		}
 		if isStore {
@@ -279,6 +312,17 @@ func c05Set(p *Prog, r *Report) {
 	for _, s := range stores {
 		if !f.MustPrecede(setOf(cmpNodes), s) {
 			unconditional = p.pos(f.Nodes[s].Ast)
+		}
+	}
+	// a compare-and-swap to s is a store of s too: it must come after the comparison that found the counter below s
+	for _, n := range f.Nodes {
+		if n.Ast == nil {
+			continue
+		}
+		for _, c := range callsIn(n.Ast, false) {
+			if isCAS(c) && !f.MustPrecede(setOf(cmpNodes), n.ID) {
+				unconditional = p.pos(n.Ast)
+			}
 		}
 	}
 	if unconditional != "" {
